@@ -3,7 +3,7 @@
    participants (in index order) with their instructor flag, the number of hidden extra names. *)
 From Coq Require Import List Arith Bool Lia.
 Require Import HP1 Cao1 Cao3 Listing.
-Require Json SimpleRead SimpleRound SimpleValid ListingText.
+Require Json SimpleRead SimpleRound SimpleValid ListingText WriteDoc WriteDocThms.
 From Coq Require String ZArith.
 Import ListNotations.
 Open Scope nat_scope.
@@ -86,7 +86,35 @@ Proof.
   intros c i Hcin Hi. destruct (Hin c i Hcin Hi) as [H _]. exact H.
 Qed.
 
-Check C14_text. Check C14_text_lines. Check C14_text_recover.
+Import String.
+Local Open Scope string_scope.
+Local Open Scope list_scope.
+Local Open Scope nat_scope.
+(* the output DOCUMENT: WriteDoc.simple_doc is the whole JSON value simple::write serialises (compared with every output file of the real
+   binary, CorrDoc.check_simple_doc): exactly the documented keys format / version / quality / assignment; the array has one entry per
+   element of the assignment -- hence, by C14_array, one per input participant, each null or a valid course index -- and a strict reader of
+   the document recovers exactly the assignment *)
+Theorem C14_document : forall a q,
+  Json.get "format" (WriteDoc.simple_doc a q) = Some (Json.JStr Consts.SIMPLE_FORMAT) /\
+  Json.get "version" (WriteDoc.simple_doc a q) = Some (Json.JStr Consts.SIMPLE_VERSION) /\
+  Json.get "quality" (WriteDoc.simple_doc a q) = Some q /\
+  Json.get "assignment" (WriteDoc.simple_doc a q) = Some (Json.JArr (map WriteDoc.enc_entry a)) /\
+  List.length (map WriteDoc.enc_entry a) = List.length a.
+Proof. exact WriteDocThms.simple_doc_shape. Qed.
+Theorem C14_document_round_trip : forall a q, WriteDoc.assignment_of_doc (WriteDoc.simple_doc a (Json.JObj q)) = Some a.
+Proof. exact WriteDocThms.simple_doc_round_trip. Qed.
+Theorem C14_document_entries : forall courses parts K a p, HardOK_K courses parts K a -> p < np parts ->
+  nth p (map WriteDoc.enc_entry a) Json.JNull = Json.JNull \/
+  exists c, c < nc courses /\ nth p (map WriteDoc.enc_entry a) Json.JNull = Json.JInt (BinInt.Z.of_nat c).
+Proof.
+  intros courses parts K a p H Hp.
+  replace (nth p (map WriteDoc.enc_entry a) Json.JNull) with (WriteDoc.enc_entry (nth p a None))
+    by (symmetry; apply (map_nth WriteDoc.enc_entry a None p)).
+  destruct (nth p a None) as [c|] eqn:E; [right|left; reflexivity]. exists c. split; [|reflexivity].
+  apply (h_rng _ _ _ _ H p c Hp). exact E.
+Qed.
+
+Check C14_text. Check C14_text_lines. Check C14_text_recover. Check C14_document. Check C14_document_round_trip. Check C14_document_entries.
 Check C14_input_round_trip. Check C14_courses. Check C14_partition. Check C14_once. Check C14_flags. Check C14_count. Check C14_array.
 Print Assumptions C14_partition.
 Print Assumptions C14_once.
@@ -97,3 +125,6 @@ Print Assumptions C14_input_round_trip.
 Print Assumptions C14_text.
 Print Assumptions C14_text_lines.
 Print Assumptions C14_text_recover.
+Print Assumptions C14_document.
+Print Assumptions C14_document_round_trip.
+Print Assumptions C14_document_entries.
